@@ -6,7 +6,8 @@ and compared with an oracle that is a *table*, not a parser: each argument
 value of the grammar is one of the menu constants below and the table says
 what a component must receive for it.
 
-A case is the JSON-able tuple ``(entry, sparse, processors, entities)``:
+A case is the JSON-able tuple ``(entry, sparse, processors, entities)`` or
+``(entry, sparse, processors, entities, steps)``:
 
     entry       'dict'            populate_world_from_dict(World(), d)
                 'dict_handle'     WorldHandle whose only transform function is
@@ -16,10 +17,20 @@ A case is the JSON-able tuple ``(entry, sparse, processors, entities)``:
                                   root['worlds/w'] = h (implicit sub-map)
                 'file_submap'     root['worlds'] = ResourceMap() first, then
                                   root['worlds/w'] = h
+                'file_extra'      as 'file_root', with one more transform
+                                  function appended to the handle:
+                                  populate_world_from_dict of EXTRA_ENTITY
+                                  (id "hud", one Hnd component)
     sparse      true: empty 'args'/'kwargs'/'components'/'processors'/
                 'entities' keys are omitted; false: written as []/{}
     processors  [[ 'A', args, kwargs ] | [ 'B', [], {} ], ...]
     entities    [[ id | null, [[ 'P', args, kwargs ] | [ 'H', [], {} ], ...]]]
+    steps       (optional; absent in the older 4-tuple form = []) what happens
+                after the first load and its checks.  ['reload'] (file entries
+                whose description holds a $res{} / $handle{} marker): a fresh
+                resource handle is assigned at root key 'a/b', the world
+                handle is cleared and loaded again, and the second world is
+                checked against the tree as it is *now*.
 
 The strings in ``args``/``kwargs`` are the literal JSON values written to the
 file.  For the two ``dict`` entries (real types, nothing is resolved there)
@@ -88,10 +99,19 @@ REF_KINDS = {'object_ref', 'attr_ref', 'package_ref', 'res_ref', 'handle_ref',
 
 ENTRIES = ('dict', 'dict_handle', 'file_root', 'file_composite',
            'file_submap')
+EXTRA_ENTRY = 'file_extra'
+ALL_ENTRIES = ENTRIES + (EXTRA_ENTRY, )
 PLACEMENT = {'dict': 'none', 'dict_handle': 'root', 'file_root': 'root',
-             'file_composite': 'composite', 'file_submap': 'submap'}
+             'file_composite': 'composite', 'file_submap': 'submap',
+             'file_extra': 'root'}
 WORLD_KEY = {'dict_handle': 'w', 'file_root': 'w',
-             'file_composite': 'worlds/w', 'file_submap': 'worlds/w'}
+             'file_composite': 'worlds/w', 'file_submap': 'worlds/w',
+             'file_extra': 'w'}
+# what the further transform function of 'file_extra' adds (spec form, as in
+# the ``entities`` of a case; the id is in no id menu)
+EXTRA_ENTITY = ['hud', [['H', [], {}]]]
+RELOAD = 'reload'
+STEPS = (RELOAD, )
 
 
 # --------------------------------------------------------------------------
@@ -275,6 +295,13 @@ class Harness:
             return kind, 'is', self.sub
         return kind, 'eq', value
 
+    def replace_a_b(self):
+        """Assign a fresh resource handle at root key 'a/b'; from now on the
+        table expects that one (and what it loads)."""
+        self.h_ab_old = self.h_ab
+        self.h_ab = ResHandle('a/b (second)')
+        self.root['a/b'] = self.h_ab
+
     def write(self, description):
         global _SCRATCH
         directory = _SCRATCH
@@ -363,33 +390,73 @@ def id_form(ents):
             seen_one = True
         elif eid is None and seen_one:
             return 'colliding_explicit_id'
+    if any(is_falsy_id(eid) for eid, _ in live):
+        return 'falsy_explicit_id'
     if any(eid is not None for eid, _ in live):
         return 'explicit_id'
     return 'auto_id' if live else 'no_entity'
 
 
+def is_falsy_id(eid):
+    """An identifier that is given (not null) and false in a boolean context
+    (0, ""): as legal a hashable as any other."""
+    return eid is not None and not eid
+
+
+def has_resource_ref(procs, ents):
+    """The description holds a $res{} / $handle{} marker."""
+    for _, args, kwargs in list(procs) + [c for _, cs in ents for c in cs]:
+        for v in list(args) + list(kwargs.values()):
+            if KIND_OF.get(jkey(v)) in ('res_ref', 'handle_ref'):
+                return True
+    return False
+
+
 # --------------------------------------------------------------------------
-def run_world_case(case):
+def split_case(case):
+    """-> (entry, sparse, procs, ents, steps); the 4-tuple form of older
+    replay records has no steps."""
     case = json.loads(json.dumps(case))
-    entry, sparse, procs, ents = case
-    if entry not in ENTRIES:
+    if len(case) == 4:
+        case = case + [[]]
+    if len(case) != 5:
+        raise HarnessError(f'malformed case {case!r}')
+    entry, sparse, procs, ents, steps = case
+    if entry not in ALL_ENTRIES:
         raise HarnessError(f'unknown entry {entry!r}')
+    if not isinstance(steps, list) or any(s not in STEPS for s in steps):
+        raise HarnessError(f'unknown steps {steps!r}')
+    if steps and not (entry.startswith('file')
+                      and has_resource_ref(procs, ents)):
+        raise HarnessError(f'steps {steps!r} need a file entry and a '
+                           '$res{} / $handle{} marker')
+    return entry, sparse, procs, ents, steps
+
+
+def run_world_case(case):
+    entry, sparse, procs, ents, steps = split_case(case)
     with Harness() as h:
-        return _check_world_case(h, entry, sparse, procs, ents, jkey(case))
+        return _check_world_case(h, entry, sparse, procs, ents, steps,
+                                 jkey(list(case)))
 
 
-def _check_world_case(h, entry, sparse, procs, ents, key):
+def _check_world_case(h, entry, sparse, procs, ents, steps, key):
     is_file = entry.startswith('file')
-    feat = dict(entry='file' if is_file else entry,
-                placement=PLACEMENT[entry])
+    extra = entry == EXTRA_ENTRY
+    feat = dict(entry=(EXTRA_ENTRY if extra else 'file') if is_file
+                else entry, placement=PLACEMENT[entry])
     hits = collections.Counter()
     calls = 0
+    # what the world must contain: the description, plus what the further
+    # transform function adds
+    exp_ents = ents + [copy.deepcopy(EXTRA_ENTITY)] if extra else ents
 
     def fail(clause, detail, form):
         raise Violation(clause, detail, form=form, **feat)
 
     # -- load --------------------------------------------------------------
     handle = None
+    wkey = None
     if entry == 'dict':
         real = h.describe(procs, ents, sparse, as_file=False)
         world = desper.World()
@@ -406,6 +473,11 @@ def _check_world_case(h, entry, sparse, procs, ents, key):
         if is_file:
             filename = h.write(h.describe(procs, ents, sparse, as_file=True))
             handle = desper.WorldFromFileHandle(filename)
+            if extra:
+                more = h.describe([], [EXTRA_ENTITY], True, as_file=False)
+                handle.transform_functions.append(
+                    lambda hdl, wld: desper.populate_world_from_dict(wld,
+                                                                     more))
         else:
             real = h.describe(procs, ents, sparse, as_file=False)
             handle = desper.WorldHandle()
@@ -427,6 +499,100 @@ def _check_world_case(h, entry, sparse, procs, ents, key):
 
     if not isinstance(world, desper.World):
         fail('load_completes', f'load returned {short(world)}', 'no_ref')
+
+    calls += _check_loaded(h, world, handle, procs, exp_ents, is_file, feat,
+                           hits)
+
+    # -- further steps -------------------------------------------------------
+    for step in steps:
+        # RELOAD: the resource the description refers to is replaced in the
+        # tree, the world handle dropped its world and loads again
+        feat2 = dict(feat, phase='reload_after_resource_replaced')
+        h.replace_a_b()
+        del _CREATED[:]
+        handle.clear()
+        calls += 1
+        try:
+            world2 = h.root[wkey]
+        except Exception as exc:
+            raise Violation(
+                'load_completes', f'root[{wkey!r}] after root["a/b"] = '
+                f'<new handle> and clear() raised {type(exc).__name__}: '
+                f'{short(str(exc), 300)}',
+                form=description_form(procs, ents), exc=type(exc).__name__,
+                **feat2)
+        calls += 1
+        if not isinstance(world2, desper.World):
+            raise Violation('load_completes',
+                            f'second load returned {short(world2)}',
+                            form='no_ref', **feat2)
+        hits2 = collections.Counter()
+        calls += _check_loaded(h, world2, handle, procs, exp_ents, is_file,
+                               feat2, hits2)
+        hits['reload_after_resource_replaced'] += 1
+        for kind in ('res_ref', 'handle_ref'):
+            if hits2[kind]:
+                hits[kind + '_after_replace'] += hits2[kind]
+
+    # -- coverage names -----------------------------------------------------------
+    live = [(eid, comps) for eid, comps in ents if comps]
+    explicit = [(eid, comps) for eid, comps in live if eid is not None]
+    autos = [(eid, comps) for eid, comps in live if eid is None]
+    form = id_form(ents)
+    if form == 'colliding_explicit_id':
+        hits['colliding_explicit_id'] += 1
+    if explicit:
+        hits['explicit_id'] += 1
+    if any(isinstance(e, str) and e for e, _ in explicit):
+        hits['string_id'] += 1
+    if any(is_falsy_id(e) for e, _ in explicit):
+        hits['falsy_id'] += 1
+    if any(is_falsy_id(e) and isinstance(e, int) for e, _ in explicit):
+        hits['zero_id'] += 1
+    if any(is_falsy_id(e) and isinstance(e, str) for e, _ in explicit):
+        hits['empty_string_id'] += 1
+    if autos:
+        hits['auto_id'] += 1
+    if autos and any(is_falsy_id(e) for e, _ in explicit):
+        hits['falsy_id_next_to_auto_id'] += 1
+    if len(live) != len(ents):
+        hits['empty_entity_skipped'] += 1
+    seen_auto = False
+    for eid, comps in live:
+        if eid is None:
+            seen_auto = True
+        elif seen_auto:
+            hits['explicit_id_after_auto'] += 1
+            break
+    if any(len(comps) == 2 for _, comps in live):
+        hits['two_components'] += 1
+    if len(live) == 2:
+        hits['two_entities'] += 1
+    if len(live) >= 3:
+        hits['three_entities'] += 1
+    hits[{'none': 'dict_entry', 'root': 'root_key_handle',
+          'composite': 'composite_key_handle',
+          'submap': 'submap_key_handle'}[feat['placement']]] += 1
+    if entry == 'dict_handle':
+        hits['dict_through_world_handle'] += 1
+    if extra:
+        hits['extra_transform_function'] += 1
+        if any(c[0] == 'H' for _, comps in live for c in comps):
+            # the situation in which a per-function dispatch shows
+            hits['extra_transform_after_file_handler'] += 1
+    if not sparse:
+        hits['empty_keys_written'] += 1
+    return {'calls': calls, 'hits': dict(hits), 'key': key}
+
+
+def _check_loaded(h, world, handle, procs, ents, is_file, feat, hits):
+    """Every clause on one loaded world: ``ents`` is everything the world
+    must contain, ``h`` the table of the tree as it is now.  Returns the
+    number of implementation calls checked."""
+    calls = 0
+
+    def fail(clause, detail, form):
+        raise Violation(clause, detail, form=form, **feat)
 
     # -- returned disabled, nothing called yet ------------------------------
     if handle is not None:
@@ -550,8 +716,8 @@ def _check_world_case(h, entry, sparse, procs, ents, key):
             continue
         if len(loads) != 1:
             fail('on_world_load_once', f'handler of entity {eid!r}: '
-                 f'on_world_load called {len(loads)} times',
-                 'handler_component')
+                 f'on_world_load called {len(loads)} times '
+                 f'({[r[0] for r in comp.log]})', 'handler_component')
         args, kwargs = loads[0][1:]
         if not (len(args) == 2 and not kwargs and args[0] is handle
                 and args[1] is world):
@@ -567,40 +733,7 @@ def _check_world_case(h, entry, sparse, procs, ents, key):
             hits['handler_callbacks_in_order'] += 1
     if len(handlers) >= 2:
         hits['two_handler_components'] += 1
-
-    # -- coverage names -----------------------------------------------------------
-    form = id_form(ents)
-    if form == 'colliding_explicit_id':
-        hits['colliding_explicit_id'] += 1
-    if explicit:
-        hits['explicit_id'] += 1
-    if any(isinstance(e, str) for e, _ in explicit):
-        hits['string_id'] += 1
-    if autos:
-        hits['auto_id'] += 1
-    if len(live) != len(ents):
-        hits['empty_entity_skipped'] += 1
-    seen_auto = False
-    for eid, comps in live:
-        if eid is None:
-            seen_auto = True
-        elif seen_auto:
-            hits['explicit_id_after_auto'] += 1
-            break
-    if any(len(comps) == 2 for _, comps in live):
-        hits['two_components'] += 1
-    if len(live) == 2:
-        hits['two_entities'] += 1
-    if len(live) >= 3:
-        hits['three_entities'] += 1
-    hits[{'none': 'dict_entry', 'root': 'root_key_handle',
-          'composite': 'composite_key_handle',
-          'submap': 'submap_key_handle'}[feat['placement']]] += 1
-    if entry == 'dict_handle':
-        hits['dict_through_world_handle'] += 1
-    if not sparse:
-        hits['empty_keys_written'] += 1
-    return {'calls': calls, 'hits': dict(hits), 'key': key}
+    return calls
 
 
 def _check_components(h, eid, comps, found, fail, hits, is_file):
@@ -733,16 +866,27 @@ def arg_shapes_full(menu):
     return out
 
 
+def with_steps(entry, sparse, procs, ents):
+    """The case of this description and entry: file entries whose description
+    holds a $res{} / $handle{} marker go on with the reload step (that case
+    contains the single-load case: same first load, same checks)."""
+    steps = []
+    if entry.startswith('file') and has_resource_ref(procs, ents):
+        steps = [RELOAD]
+    return (entry, sparse, procs, ents, steps)
+
+
 def argument_cases(shapes, entries):
     cases = []
     for args, kwargs in shapes:
         for carrier in ('component', 'processor'):
             for entry in entries:
                 if carrier == 'component':
-                    cases.append((entry, True, [],
-                                  [[None, [['P', args, kwargs]]]]))
+                    cases.append(with_steps(entry, True, [],
+                                            [[None, [['P', args, kwargs]]]]))
                 else:
-                    cases.append((entry, True, [['A', args, kwargs]], []))
+                    cases.append(with_steps(entry, True,
+                                            [['A', args, kwargs]], []))
     return cases
 
 
@@ -763,7 +907,7 @@ P0 = ['P', [1], {}]
 P1 = ['P', [V_OBJ], {'k': V_RES}]
 P2 = ['P', [V_HANDLE, V_NESTED], {'k': V_SUB}]
 H0 = ['H', [], {}]
-IDS = [None, 7, 'p1', 1]
+IDS = [None, 7, 'p1', 1, 0, '']
 
 
 def processor_lists(variants):
@@ -807,7 +951,7 @@ def structure_cases(proc_lists, ent_lists, sparses, entries):
         for procs in proc_lists:
             for sparse in sparses:
                 for entry in entries:
-                    cases.append((entry, sparse, procs, ents))
+                    cases.append(with_steps(entry, sparse, procs, ents))
     return cases
 
 
@@ -829,10 +973,11 @@ def families(tier):
             run_world_case,
             structure_cases(processor_lists([A1]),
                             entity_lists(component_lists([P1]), 2),
-                            [True, False], ENTRIES),
+                            [True, False], ALL_ENTRIES),
             dict(processors='sub-lists of [A1, B] in both orders',
                  components='<= 2 distinct of P1, H in both orders',
-                 ids=IDS, max_entities=2, A1=A1, P1=P1, entries=ENTRIES))
+                 ids=IDS, max_entities=2, A1=A1, P1=P1, entries=ALL_ENTRIES,
+                 extra_entity=EXTRA_ENTITY))
     else:
         fam['arguments'] = (
             run_world_case, argument_cases(arg_shapes_full(MENU), ENTRIES),
@@ -844,21 +989,22 @@ def families(tier):
             run_world_case,
             structure_cases(processor_lists([A0, A1]),
                             entity_lists(component_lists([P0, P1, P2]), 2),
-                            [True, False], ENTRIES),
+                            [True, False], ALL_ENTRIES),
             dict(processors='sub-lists of [A0|A1, B] in both orders',
                  components='<= 2 distinct of P0|P1|P2, H in both orders',
                  ids=IDS, max_entities=2, A0=A0, A1=A1, P0=P0, P1=P1, P2=P2,
-                 entries=ENTRIES))
+                 entries=ALL_ENTRIES, extra_entity=EXTRA_ENTITY))
         fam['structure-3'] = (
             run_world_case,
             structure_cases([[], [A1, B0], [B0, A1]],
                             [e for e in
                              entity_lists(component_lists([P1]), 3)
                              if len(e) == 3],
-                            [True], ENTRIES),
+                            [True], ALL_ENTRIES),
             dict(processors=[[], [A1, B0], [B0, A1]],
                  components='<= 2 distinct of P1, H in both orders',
-                 ids=IDS, entities=3, A1=A1, P1=P1, entries=ENTRIES))
+                 ids=IDS, entities=3, A1=A1, P1=P1, entries=ALL_ENTRIES,
+                 extra_entity=EXTRA_ENTITY))
     return fam
 
 
